@@ -148,7 +148,7 @@ func runC14(r *Run) {
 	r.Rule("one probe element carrying up to 8 attributes over a vocabulary of static (plain / with mustaches), :name and v-bind:name bound, bound-with-mustache, object syntax on class / style / other names (path and literal values, quoted keys, camelCase style keys, hyphenated keys with capitals such as CSS custom properties), " +
 		"bracketed [name], v-show and other directives, including several bound attributes, static/bound collisions on class, style and ordinary names; values of every kind and truthiness; " +
 		"observable: the ordered attribute list of the element as an HTML parser reads it back; non-trivial: >= 2 attributes that interact (same name, class/style merge, v-show with style)")
-	r.Assume("attribute values contain no HTML-special characters (escaping is C01/C02); object-literal values are paths or simple literals; one attribute per written name")
+	r.Assume("attribute values contain no quotes or angle brackets (escaping is C01/C02; ampersands and reference-looking text are generated); object-literal values are paths or simple literals; one attribute per written name")
 	rr := r.Rng
 	n := 4000
 	if r.Thorough() {
@@ -163,6 +163,8 @@ func runC14(r *Run) {
 		KV{K: "cls", V: VStr("c1 c2")}, KV{K: "css", V: VStr("color: blue; padding:1px")}, KV{K: "fs", V: VStr("12px")}, KV{K: "m", V: VMap(KV{K: "k", V: VStr("mk")}, KV{K: "is-open", V: VBool(true)}, KV{K: "is-closed", V: VBool(false)}, KV{K: "a b", V: VStr("sp")})},
 		KV{K: "lm", V: VList("", VMap(KV{K: "on", V: VBool(true)}), VMap(KV{K: "on", V: VBool(false)}))},
 		KV{K: "not", V: VStr("kw")}, KV{K: "in", V: VInt("int", 0)}, KV{K: "let", V: VBool(true)},
+		// text that reads like character references: the attribute must come back from a parser exactly as given
+		KV{K: "amp", V: VStr("/s?q=1&copy=2&lt=3")}, KV{K: "ent", V: VStr("Tom &amp; &lt;b&gt; &#34;x&#34;")},
 	).Normalize()
 	// the rows of the loop variant: the same names with other values and other truthiness from row to row
 	flip := func(pairs ...KV) Val {
@@ -187,7 +189,7 @@ func runC14(r *Run) {
 	paths := []string{"s", "e", "t", "f", "n", "z", "z8", "u", "fl", "nil", "list", "cls", "css", "fs", "m.k", "m.zz", "zz",
 		"m.is-open", "m.is-closed", "lm.0.on", "lm.1.on", "list.0", "lm[0].on", "not", "in", "let",
 		// ... and paths of each kind that lead nowhere
-		"list.9", "m.is-none", "lm.7.on", "nope-x", "zz.0", "m.nokey.deeper"}
+		"list.9", "m.is-none", "lm.7.on", "nope-x", "zz.0", "m.nokey.deeper", "amp", "ent"}
 	names := []string{"title", "href", "class", "style", "data-x", "id", "disabled"}
 	lits := []Val{VStr("red"), VStr(""), VBool(true), VBool(false), VInt("int", 12), VInt("int", 0),
 		// string literals that hold the separators of the object syntax: a comma, a colon, a quote of the other kind, braces
